@@ -18,7 +18,8 @@ Rule == [ls |-> [cat |-> <<99>>, prod |-> <<119,105,110,100,111,119,115>>, svc |
                      [field |-> <<102,105,101,108,100,75,49>>, vals |-> <<VStr("str", <<107,120>>, <<>>)>>, applied |-> <<t_pre, t_ren, t_only1>>],      \* fieldK1: also processed by only1
                      [field |-> <<102,105,101,108,100,75,50>>, vals |-> <<VStr("str", <<107,119>>, <<>>)>>, applied |-> <<t_pre, t_ren>>]>>,
          fields |-> <<[name |-> fB, applied |-> <<t_ren>>], [name |-> fE, applied |-> <<>>]>>,
-         applied |-> <<t_st, t_pre, t_ren, t_only1, t_st0>>, state |-> <<(<<(<<107>>), (<<118>>)>>), (<<(<<122>>), (<<>>)>>)>>,      \* k = "v", z = ""
+         applied |-> <<t_st, t_pre, t_ren, t_only1, t_st0, <<115,116,110>>>>,
+         state |-> <<(<<(<<107>>), SVal(<<118>>)>>), (<<(<<122>>), SVal(<<>>)>>), (<<(<<110>>), NVal(5)>>)>>,      \* k = "v", z = "", n = 5
          attrs |-> <<[name |-> <<115,101,118,101,114,105,116,121,95,115,99,111,114,101>>, kind |-> "int", n |-> 5, s |-> <<>>],
                      [name |-> <<108,101,118,101,108>>, kind |-> "level", n |-> 4, s |-> <<>>],
                      [name |-> <<97,117,116,104,111,114>>, kind |-> "str", n |-> 0, s |-> <<109,101>>]>>]
